@@ -23,4 +23,21 @@ if r.returncode != 0:
     print("setup: model validation failed", file=sys.stderr)
     sys.exit(r.returncode)
 r = subprocess.run(["cargo", "kani", "--version"], env=e)
-sys.exit(r.returncode)
+if r.returncode != 0:
+    sys.exit(r.returncode)
+# Pre-build the compile lanes (see check.py lane_dir): the dependency tree of the harness
+# crate, gamedig included, is compiled once per lane here so that no property's quick
+# check pays for it. The checks themselves still rebuild whatever changed in /repo
+# (cargo fingerprints the path dependency).
+lanes = max(1, int(os.environ.get("VERIF_LANES", "8")))
+procs = []
+for k in range(lanes):
+    cmd = ["cargo", "kani", "--features", "c17", "-Z", "stubbing", "--only-codegen", "--target-dir",
+           os.path.join(VERIF, ".work", "lane-%d" % k), "--harness", "c17::c17_read_u8_le", "--exact"]
+    procs.append(subprocess.Popen(cmd, cwd=H, env=e, stdout=subprocess.DEVNULL, stderr=subprocess.STDOUT))
+rc = 0
+for pr in procs:
+    rc = rc or pr.wait()
+if rc != 0:
+    print("setup: lane pre-build failed", file=sys.stderr)
+sys.exit(rc)
